@@ -97,6 +97,51 @@ def _site_col_group(s):
     return spec, {"d": ([s, "x"], [("p", 1.0), ("p", 2.0), ("q", 4.0)])}, ([s, "n"], [("p", 3.0), ("q", 4.0)])
 
 
+def _site_col_rename_source(s):
+    spec = _t("d", [s, "x"], [["rename_columns", {"map": {"n": s}}]])
+    return spec, {"d": ([s, "x"], [("p", 1.0), ("q", 2.0)])}, (["n", "x"], [("p", 1.0), ("q", 2.0)])
+
+
+def _site_col_map_source(s):
+    spec = _t("d", [s, "x"], [["map_columns", {"map": {s: "n"}}]])
+    return spec, {"d": ([s, "x"], [("p", 1.0), ("q", 2.0)])}, (["n", "x"], [("p", 1.0), ("q", 2.0)])
+
+
+def _site_col_select(s):
+    spec = _t("d", [s, "x"], [["select_columns", {"columns": [s]}]])
+    return spec, {"d": ([s, "x"], [("p", 1.0), ("q", 2.0)])}, ([s], [("p",), ("q",)])
+
+
+def _site_col_drop(s):
+    spec = _t("d", [s, "x", "y"], [["drop_columns", {"columns": ["y"]}]])
+    return spec, {"d": ([s, "x", "y"], [("p", 1.0, 0.0), ("q", 2.0, 0.0)])}, ([s, "x"], [("p", 1.0), ("q", 2.0)])
+
+
+def _site_col_order(s):
+    spec = _t("d", [s, "x"], [["order_rows", {"columns": [s], "reverse": [s], "limit": 1}]])
+    return spec, {"d": ([s, "x"], [("p", 1.0), ("q", 2.0)])}, ([s, "x"], [("q", 2.0)])
+
+
+def _site_col_expr(s):
+    spec = _t("d", [s, "x"], [["extend", {"ops": {"r": {"ast": ["b", "+", ["c", s], ["v", 1]], "route": "A"}}}]])
+    return spec, {"d": ([s, "x"], [(3.0, 1.0), (4.0, 2.0)])}, ([s, "x", "r"], [(3.0, 1.0, 4.0), (4.0, 2.0, 5.0)])
+
+
+def _site_col_project_arg(s):
+    spec = _t("d", ["g", s], [["project", {"ops": {"n": {"ast": ["m", "sum", ["c", s], []], "route": "A"}}, "group_by": ["g"]}]])
+    return spec, {"d": (["g", s], [("p", 1.0), ("p", 2.0), ("q", 4.0)])}, (["g", "n"], [("p", 3.0), ("q", 4.0)])
+
+
+def _site_col_window(s):
+    spec = _t("d", [s, "x"], [["extend", {"ops": {"n": "x.sum()"}, "partition_by": [s]}]])
+    return spec, {"d": ([s, "x"], [("p", 1.0), ("p", 2.0), ("q", 4.0)])}, ([s, "x", "n"], [("p", 1.0, 3.0), ("p", 2.0, 3.0), ("q", 4.0, 4.0)])
+
+
+def _site_col_join_key(s):
+    spec = _t("d", [s, "x"], [["natural_join", {"b": _t("e", [s, "z"], []), "on": [s], "jointype": "inner"}]])
+    return spec, {"d": ([s, "x"], [(1, 1.0), (2, 2.0)]), "e": ([s, "z"], [(1, 5.0), (3, 6.0)])}, ([s, "x", "z"], [(1, 1.0, 5.0)])
+
+
 def _site_table(s):
     spec = _t(s, ["g", "x"], [["extend", {"ops": {"r": "x + 1"}}]])
     return spec, {s: (["g", "x"], [("p", 1.0), ("q", 2.0)])}, (["g", "x", "r"], [("p", 1.0, 2.0), ("q", 2.0, 3.0)])
@@ -159,6 +204,15 @@ SITES: Dict[str, Tuple[str, Any]] = collections.OrderedDict(
         ("column:rename-target", ("id", _site_col_rename)),
         ("column:extend-target", ("id", _site_col_new)),
         ("column:group_by", ("id", _site_col_group)),
+        ("column:rename-source", ("id", _site_col_rename_source)),
+        ("column:map-source", ("id", _site_col_map_source)),
+        ("column:select_columns", ("id", _site_col_select)),
+        ("column:drop_columns-survivor", ("id", _site_col_drop)),
+        ("column:order_rows", ("id", _site_col_order)),
+        ("column:expression-operand", ("id", _site_col_expr)),
+        ("column:aggregate-argument", ("id", _site_col_project_arg)),
+        ("column:partition_by", ("id", _site_col_window)),
+        ("column:join-key", ("id", _site_col_join_key)),
         ("table:name", ("id", _site_table)),
         ("concat_rows:a_name", ("lit", _site_concat("a_name"))),
         ("concat_rows:b_name", ("lit", _site_concat("b_name"))),
@@ -170,6 +224,15 @@ SITES: Dict[str, Tuple[str, Any]] = collections.OrderedDict(
         ("convert_records:control-column-name", ("id", _site_rec_colname)),
     ]
 )
+
+
+#: identifiers that are SQL keywords / niladic functions (tried as table and column NAMES, lower and UPPER case)
+SQL_KEYWORDS = ["null", "true", "false", "current_date", "current_time", "current_timestamp", "group", "order", "select", "table", "index", "values",
+                "default", "check", "from", "where", "join", "union", "case", "when", "end", "as", "by", "limit", "rowid"]  # fmt: skip
+
+
+def keyword_probes() -> List[str]:
+    return [k for kw in SQL_KEYWORDS for k in (kw, kw.upper())]
 
 
 def probes(max_len: int) -> List[str]:
@@ -362,7 +425,9 @@ def check_case(site: str, s: str, dialect: str) -> Dict[str, Any]:
             res["fails"].append([tag, "to_sql-raises", "%s: %s" % (gp[1], gp[2])])
             continue
         executed = False
-        if dialect in ("SQLiteModel", "PostgreSQLModel"):
+        # sqlite3 is not a faithful surrogate for PostgreSQL where the identifiers "true" / "false" are concerned (see classify)
+        pg_unfaithful = dialect == "PostgreSQLModel" and kind == "id" and s.lower() in ("true", "false")
+        if dialect in ("SQLiteModel", "PostgreSQLModel") and not pg_unfaithful:
             rn = _neutral_run(site, dialect, annotate)
             if rn[0] == "ok":
                 okn, whyn = _same_table(rn[1], rn[2], nwant)
@@ -408,6 +473,18 @@ def classify(site, kind, s, dialect, spec, res) -> Dict[str, List[str]]:
     if site in ("concat_rows:a_name", "concat_rows:b_name") and any(c in s for c in _PY_DQ_SPECIAL):
         keys["%s:sql_model.SQLModel.concat_rows_to_near_sql:label-spliced-into-expression-source" % PID] = dets
         return keys
+    # (1b) SQLite itself (3.40): a double-quoted "true" / "false" in a SELECT list over a sub-query is not resolved to the
+    #      sub-query's column of that name but read as the boolean / string constant.  The generated text is well-formed
+    #      and carries the name verbatim (it tokenises exactly like the neutral query) -- only the execution misreads it.
+    if dialect == "SQLiteModel" and kind == "id" and s.lower() in ("true", "false") and kinds <= {"read-back", "execution-raises"}:
+        ok_all = True
+        for annotate in (True, False):
+            gp, gn = gen_sql(spec, dialect, annotate), _neutral_sql(site, dialect, annotate)
+            if gp[0] != "ok" or gn[0] != "ok" or not compare_tokens(dialect, gn[1], gp[1], s)[0]:
+                ok_all = False
+        if ok_all:
+            keys["%s:sql_model.SQLModel.quote_identifier:column-named-true-or-false-misread-by-sqlite" % PID] = dets
+            return keys
     # (2) backslash is an escape character inside MySQL / Spark / BigQuery string literals (and, per BigQuery's lexical
     #     rules, inside BigQuery's quoted identifiers); quote_string / quote_identifier emit it bare.  Narrow test:
     #     re-writing exactly those tokens with the backslash doubled removes every failure.
@@ -470,6 +547,8 @@ def bounded(rep: Report, tier: str, seed: int) -> None:
     sc = scope(tier)
     ps = probes(sc["max_len"])
     jobs = [(site, s, d) for s in ps for site in SITES for d in DIALECTS]
+    kws = keyword_probes()
+    jobs += [(site, s, d) for s in kws for site, (kind, _) in SITES.items() if kind == "id" for d in DIALECTS]
     outs = O.pool_map(_worker, O.shards(jobs, 8))
     counts = collections.Counter()
     modes = collections.Counter()
@@ -507,7 +586,8 @@ def bounded(rep: Report, tier: str, seed: int) -> None:
     rep.extra["sites_a_dialect_cannot_translate"] = dict(unsupported)
     rep.extra["refused_by_pipeline_builder"] = dict(refused)
     rep.extra["failing_cases_by_key"] = dict(collections.Counter(v.key for v in rep.violations))
-    print("C14 bounded: %d probes x %d sites x %d dialects = %d cases %s in %.1fs" % (len(ps), len(SITES), len(DIALECTS), len(jobs), dict(counts), time.time() - t0), file=sys.stderr)
+    rep.extra["sql_keyword_identifiers"] = kws
+    print("C14 bounded: (%d probes x %d sites + %d keyword identifiers x %d identifier sites) x %d dialects = %d cases %s in %.1fs" % (len(ps), len(SITES), len(kws), sum(1 for k, _ in SITES.values() if k == "id"), len(DIALECTS), len(jobs), dict(counts), time.time() - t0), file=sys.stderr)
 
 
 def replay_case(case: Dict[str, Any]) -> bool:
